@@ -200,7 +200,7 @@ def edge_cases():
         data = [1 if (3 * t + 2 * j) % 5 in (0, 1) else 0 for t in range(Tn) for j in range(m)]
         out.append({"kind": "isi", "dt": 0.5, "time_first": True, "shape": [Tn] + pop, "pop": pop, "m": m, "T": Tn,
                     "data": data, "default_layout": True})
-    out += dtype_cases() + f32_edge_cases()
+    out += dtype_cases() + f32_edge_cases() + kind_cases()
     out.append({"kind": "quad_poisson", "rate": 0.0})
     out.append({"kind": "quad_poisson", "rate": 1e-6})
     out.append({"kind": "quad_cont", "dist": "normal", "loc": 0.0, "scale": 1e-3})
@@ -228,6 +228,38 @@ def dtype_cases():
                     if sd == "bool":
                         sup = [1] if dist == "lognormal" else [0, 1]
                     out.append({"kind": "dtype", "dist": dist, "sdtype": sd, "pkind": pk, "support": sup, "params": ps})
+    return out
+
+
+CKINDS = ["pyint", "pyfloat", "np64", "npint", "t0d_i64", "t1d_i64", "t1d_f32", "t1d_f64", "t0d_f64", "t0d_f32"]
+
+
+def kind_cases():
+    """argument kinds of the non-distribution helpers (deterministic): Victor-Purpura cost as python int / float, numpy
+    scalars, 0-d / 1-d tensors of int64 / float32 / float64 x spike-time dtype; isi raster dtype x step_time kind;
+    interp / extrap data dtype x sample-time dtype x python int / float step and constants."""
+    out = []
+    trains = [([0.0, 3.0], [0.4, 3.3], [1.2]), ([0.25, 1.5, 2.75], [0.5, 2.0], [0.25, 1.5, 2.75, 4.0])]
+    itrains = [([0, 3], [1, 5], [2]), ([1, 4, 6], [2, 4], [])]
+    for ck in CKINDS:
+        for cost in (1, 2, 0.5):
+            if ck in ("pyint", "npint", "t0d_i64", "t1d_i64") and cost != int(cost):
+                continue
+            for td in ("float32", "float64", "int64"):
+                for a, b, c in (itrains if td == "int64" else trains):
+                    out.append({"kind": "vpk", "a": a, "b": b, "c": c, "cost": cost, "ckind": ck, "tdtype": td})
+    raster = [1, 0, 1, 0, 1, 0, 1, 1, 0, 0, 0, 0, 1, 0, 1]
+    for rd in ("bool", "int64", "int8", "float32", "float64"):
+        for sk, dt in (("pyint", 2), ("pyfloat", 0.5), ("t0d_f32", 0.5), ("t0d_f64", 0.5), ("pyfloat", 1.3)):
+            for tf, shape in ((True, [5, 3]), (False, [3, 5])):
+                out.append({"kind": "isik", "rdtype": rd, "skind": sk, "dt": dt, "time_first": tf, "shape": shape, "data": raster})
+    for k in range(11):
+        for ddt in ("float32", "float64", "int64"):
+            for sdt in ("float32", "float64"):
+                for nk, dt, cc in (("pyint", 2, 3), ("pyfloat", 2.0, 3.0), ("pyfloat", 1.3, 1.7)):
+                    vals = {"s": 3, "p": -2, "n": 5} if ddt == "int64" else {"s": 2.75, "p": -1.5, "n": 4.25}
+                    out.append(dict({"kind": "iek", "k": k, "ddtype": ddt, "sdtype": sdt, "nkind": nk, "t": 0.5, "dt": dt,
+                                     "c": cc}, **vals))
     return out
 
 
@@ -612,6 +644,52 @@ def oracle(case, atoms, outs):
             if "float" not in o["dtypes"][fn]:
                 fails.append(fail(case, "result_dtype", sig, {"function": fn, "dtype": o["dtypes"][fn]}))
         return fails[:2]
+    if k == "vpk":
+        o = outs[0]["ok"]
+        ck = "tensor_int64" if case["ckind"] in ("t0d_i64", "t1d_i64") else case["ckind"]
+
+        def vf(law, detail):
+            f_ = fail(case, law, "victor_purpura", detail)
+            f_["signature"] = {"part": "victor_purpura", "law": law, "cost_kind": ck}
+            return f_
+        for r, v in o.items():
+            if not near32(v["d"], v["ref"], 2e-4, 1e-6) or "float" not in v["dtype"] or v["shape"] != [1]:
+                fails.append(vf("kind_independence", {"pair": r, "got": v["d"], "dtype": v["dtype"], "shape": v["shape"],
+                                                      "float64_reference": v["ref"], "cost": case["cost"]}))
+                break
+        d = {r: v["d"] for r, v in o.items()}
+        tol = 1e-5 * max(1.0, d["ab"] + d["bc"])
+        if abs(d["ab"] - d["ba"]) > tol:
+            fails.append(vf("vp_symmetric", {"ab": d["ab"], "ba": d["ba"]}))
+        if d["aa"] != 0:
+            fails.append(vf("vp_identity", {"aa": d["aa"]}))
+        if case["cost"] > 0 and (d["ab"] <= tol) != (case["a"] == case["b"]):
+            fails.append(vf("vp_zero_iff_equal", {"ab": d["ab"]}))
+        if d["ac"] > d["ab"] + d["bc"] + tol:
+            fails.append(vf("vp_triangle", {"ac": d["ac"], "ab": d["ab"], "bc": d["bc"]}))
+        return fails[:2]
+    if k == "isik":
+        o = outs[0]["ok"]
+        bad = o["shape"] != o["ref_shape"] or "float" not in o["dtype"] or len(o["test"]) != len(o["ref"]) or any(
+            (a is None) != (b is None) or (a is not None and not near32(a, b, 2e-4, 1e-6)) for a, b in zip(o["test"], o["ref"]))
+        if bad:
+            f_ = fail(case, "kind_independence", "isi", {"got": o["test"][:8], "reference": o["ref"][:8], "dtype": o["dtype"],
+                                                        "shape": o["shape"], "ref_shape": o["ref_shape"]})
+            f_["signature"] = {"part": "isi", "law": "kind_independence", "raster": case["rdtype"], "step_time": case["skind"]}
+            fails.append(f_)
+        return fails
+    if k == "iek":
+        o = outs[0]["ok"]
+        # selecting kernels (previous / next / nearest / neighbors) hand back their integer data unchanged: exact, any dtype;
+        # computing kernels (linear, exponential) must produce floating results
+        bad = any(not near32(a, b, 2e-4, 1e-6) for a, b in zip(o["test"], o["ref"])) \
+            or (case["k"] >= 6 and any("float" not in d_ for d_ in o["dtypes"][2:]))
+        if bad:
+            f_ = fail(case, "kind_independence", "interp/extrap:" + PAIRS[case["k"]],
+                      {"got": o["test"], "reference": o["ref"], "dtypes": o["dtypes"]})
+            f_["signature"] = {"part": "interp/extrap", "law": "kind_independence", "data": case["ddtype"], "number": case["nkind"]}
+            fails.append(f_)
+        return fails
     if k == "f32":
         o = outs[0]["ok"]
         dist, ps = case["dist"], case["params"]
@@ -743,7 +821,10 @@ def run(ctx):
                 "(int64/int32/bool/float32/float64) x parameter kind (python float/int, 0-d and 1-d float64, float32, numpy) "
                 "against the all-float64 evaluation, and python-float arguments (float32 inside the functions) against float64 "
                 "closed forms at relative 1e-4 where the formula is well conditioned (narrow LogNormal moments, lower tail of "
-                "large-rate Poisson); isi also called without time_first on time-first rasters incl. T < last dim; non-trivial = sample strictly inside the step / >=2 spikes / "
+                "large-rate Poisson); argument kinds of the other helpers against their all-float64 evaluation (Victor-Purpura cost "
+                "as python int/float, numpy scalars, 0-d/1-d int64/float32/float64 tensors x float32/float64/int64 spike times, "
+                "with the metric laws on the mixed kinds; isi raster dtype x step_time kind; interp/extrap data dtype x sample-time "
+                "dtype x python int/float step and constants); isi also called without time_first on time-first rasters incl. T < last dim; non-trivial = sample strictly inside the step / >=2 spikes / "
                 ">=2 spikes in the triple; distinct by full case text"
                 + ("; plus all rasters with T<=4, M<=2 and all triples of <=2-spike trains over {0,.5,1} at 3 costs" if exhaustive else ""),
         "case_kinds": dict(kinds), "model_evaluations": nterms,
